@@ -137,7 +137,7 @@ def archive(case, d):
     res = attempt(lambda: str(a.archive(filepath=dest, compressiontype=case['ctype'], overwrite=case['overwrite'])))
     out = dict(res=res[:2], array_unchanged=snapshot(base) == before, target_exists=os.path.exists(target))
     if pre is not None:
-        out['target_is_previous'] = open(target, 'rb').read() == pre
+        out['target_is_previous'] = os.path.isfile(target) and open(target, 'rb').read() == pre
     if res[0] == 'ok':
         ex = os.path.join(d, 'extracted')
         os.makedirs(ex)
